@@ -606,19 +606,19 @@ fn variant_board(start: u8, variant: u8) -> Board {
 
 pub fn chain_eq<S: Src, const START: u8, const KG: u8>(s: &mut S) {
     // chain 1: stated start + one symbolic push of group KG; chain 2: a variant of the start (same / other
-    // clocks / no castling rights / another position) + optionally one CONCRETE move of the same group
-    let (mut c1, mut m1) = build(START, 0);
+    // clock / without the mover's castling rights / another position) + optionally one CONCRETE move of the group.
+    // No plain-board model here: equality is about (start, move list, outcome) only.
+    rep_reset();
+    let b1 = start_board(START);
+    let mut c1: Chain = BaseMoveChain::new(b1.clone());
     let v = s.below(4);
     let b2 = variant_board(START, v);
     let mut c2: Chain = BaseMoveChain::new(b2.clone());
-    let mut m2 = Model::new(b2);
-    let side = pos_of(m1.cur().raw()).side;
+    let side = if b1.side() == Color::White { 0u8 } else { 1u8 };
     let a = any_m_rt(s, side, KG);
     vassume!(wf_ref(a));
-    if let Ok(nb) = m1.cur().make_move(mv_of(a)) {
-        c1.push(mv_of(a)).unwrap();
-        m1.push(mv_of(a), nb);
-    }
+    let r1 = c1.push(mv_of(a));
+    let mut mv2: Option<Move> = None;
     if s.bool() {
         // a stated concrete move of that group (if it is legal in chain 2's position)
         let (f, t, p) = match (START, KG) {
@@ -626,33 +626,31 @@ pub fn chain_eq<S: Src, const START: u8, const KG: u8>(s: &mut S) {
             (0, KG_KING) => ("e1", "f1", 0),
             (0, KG_CASTLING) => ("e1", "g1", 0),
             (1, KG_PSPECIAL) => ("b2", "b1", 4),
-            (4, KG_KING) => ("e1", "e2", 0),
             _ => ("g1", "f3", 0),
         };
         let u = uci::Move::Move { src: Coord::from_index(sq(f) as usize), dst: Coord::from_index(sq(t) as usize), promote: crate::c10::promote_of(p) };
-        if let Ok(mv) = u.into_move(m2.cur()) {
-            if let Ok(nb) = m2.cur().make_move(mv) {
-                c2.push(mv).unwrap();
-                m2.push_concrete(mv, nb);
+        if let Ok(mv) = u.into_move(&b2) {
+            if c2.push(mv).is_ok() {
+                mv2 = Some(mv);
             }
         }
     }
-    if s.bool() {
-        let o = any_outcome(s);
-        c1.set_outcome(o);
-        m1.outcome = Some(o);
-    }
-    if s.bool() {
-        let o = any_outcome(s);
-        c2.set_outcome(o);
-        m2.outcome = Some(o);
-    }
-    let want = m1.start().raw() == m2.start().raw() && m1.len() == m2.len() && m1.move_at(0) == m2.move_at(0) && m1.outcome == m2.outcome;
+    let o1 = if s.bool() { Some(any_outcome(s)) } else { None };
+    let o2 = if s.bool() { Some(any_outcome(s)) } else { None };
+    c1.reset_outcome(o1);
+    c2.reset_outcome(o2);
+    let same_moves = match (r1.is_ok(), mv2) {
+        (false, None) => true,
+        (true, Some(m)) => m == mv_of(a),
+        _ => false,
+    };
+    let want = b1.raw() == b2.raw() && same_moves && o1 == o2;
+    vnote!("start 1 {} + {:?} ({}) vs start 2 {} + {:?}: == is {}, should be {}", b1.as_fen(), mv_of(a), r1.is_ok(), b2.as_fen(), mv2, c1 == c2, want);
     vassert!("chains compare equal exactly when start, move list and outcome are equal", (c1 == c2) == want);
-    vcover!("equal chains with a move", want && m1.len() == 1);
-    vcover!("different starts whose current positions coincide after the same move (pawn / king groups)", !(KG == KG_PAWN || KG == KG_KING) || !want && m1.len() == 1 && m2.len() == 1 && m1.move_at(0) == m2.move_at(0)
-        && m1.outcome == m2.outcome && m1.cur().raw() == m2.cur().raw());
-    vcover!("same start, different move", !want && m1.len() == 1 && m2.len() == 1 && m1.outcome == m2.outcome && m1.start().raw() == m2.start().raw());
+    vcover!("equal chains with a move", want && r1.is_ok());
+    vcover!("different starts whose current positions coincide after the same move (pawn / king groups)", !(KG == KG_PAWN || KG == KG_KING)
+        || (!want && r1.is_ok() && same_moves && o1 == o2 && c1.last().raw() == c2.last().raw()));
+    vcover!("same start, different move", !want && r1.is_ok() && mv2.is_some() && o1 == o2 && b1.raw() == b2.raw());
     core::mem::forget(c1);
     core::mem::forget(c2);
 }
